@@ -5,7 +5,7 @@ EXTENDS Pipeline, Json
 \* one representative per output-affecting edit class of C08
 AllClasses == {"cmd_added", "cmd_renamed", "param_type", "param_added", "param_renamed", "param_optional",
                "ret_type", "cmd_rename_all",
-               "field_added", "field_type", "field_rename", "rename_all", "skip_added",
+               "field_added", "field_type", "field_rename", "rename_identity", "rename_all", "skip_added",
                "variant_added", "variant_rename", "validator", "validator_changed",
                "event_payload", "event_renamed", "event_added",
                "channel_type", "channel_added",
